@@ -235,7 +235,7 @@ def cases(rng, n_each=8):
             targets, tchecks = [], []
             for _ in range(rng.randint(0, 3)):
                 pdt = rng.choice([0, 0, 5, 1, 3] + ([] if lid4 else [4, 7]))
-                desg, dexp = spec_resp.designator(rng, rng.choice(["naa3", "naa5", "naa6", "eui8", "t10", "relport"]), piv=False)
+                desg, dexp = spec_resp.designator(rng, rng.choice(["naa3", "naa5", "naa6", "eui8", "eui12", "eui16", "t10", "relport", "vendor", "md5"]), piv=False)
                 dd = dexp["designator"]
                 tp = dict(code_set=dexp["code_set"], association=dexp["association"], designator_type=dexp["designator_type"],
                           designator_length=dexp["designator_length"], designator=dd)
